@@ -618,6 +618,14 @@ class ChildWorld:
             ev["eus"] = {"space": eus["space"], "time": eus["time"], "quantity": eus["quantity"]}
         elif name.startswith("fs_"):
             self.fs_op(ev, op, eng)
+        elif name == "script_touch":
+            # the caller goes on using ITS script object after set-up (assigns another system, other sample times): the
+            # engine must have taken its own copy. The cached script is dropped so that later set-ups start from a pristine one.
+            script = self.get_script(sidx)
+            other = self.get_system(int(op[1]))
+            script.system = other
+            script.t_sample = [0.0, 1.0, 2.0, 3.0, 4.0, 5.0, 6.0, 7.0]
+            self.scripts.pop(sidx, None)
         elif name == "sysinfo":
             # what the front end made of the description: state, chemostat map (C04 twins)
             system = self.get_system(sidx)
